@@ -31,7 +31,7 @@ ANCHORS = [
     ("lib/debian/_deb822_repro/_util.py", ["len_check_iterator", "BufferingIterator"]),
     ("lib/debian/_util.py", ["LinkedList", "LinkedListNode"]),
 ]
-BUDGET = {"quick": 3000, "thorough": 44000}
+BUDGET = {"quick": 2000, "thorough": 24000}
 SHARD = 200
 RULE = ("documents pre + NAME ':' value + post; value = lead + values joined by separators + trail, drawn from: "
         "within-line whitespace (SP, TAB, NBSP, EM SPACE, runs), line breaks with SP/TAB continuation and 0-2 "
@@ -61,8 +61,17 @@ TRUSTED = ["model coq/Repro/ListView.v is a hand transcription of the list-view 
 ASSUMPTIONS = ["\\s of a str pattern = str.isspace() = the whitespace of str.strip()/str.split() "
                "(coq/Gen/PyChars.v, generated from the running interpreter)",
                "property domain (ListSpec.value_ok): the value text has content, no line boundary of "
-               "str.splitlines() other than LF / CR LF, continuation lines start with SP, TAB or '#' and are not "
+               "str.splitlines() other than LF (CR included: for CRLF documents only the correspondence is "
+               "demanded), continuation lines start with SP, TAB or '#' and are not "
                "blank (what the deb822 parser guarantees); outside it holds is not demanded, agree is",
+               "every session reads list(view) right after opening the view and after every successful operation "
+               "(Deb822ParsedValueElement caches convert_to_text() and convert_to_text_without_comments() in ONE "
+               "slot, so what a multi-token comma value renders as depends on which was called first; the model "
+               "records it per element: parsed elements comment-free, elements made by the value factory with "
+               "their comment lines)",
+               "theorems 3/4 (edit read-back) are proved for whitespace-separated lists and the direct operations "
+               "append / remove / replace with good new values; comma lists and value references are covered by "
+               "the correspondence and by holds only",
                "field names are ASCII names accepted by _RE_FIELD_LINE (taken from the implementation's parse)",
                "asserts are enabled (python without -O): an empty value read through a list view raises AssertionError"]
 
@@ -241,13 +250,13 @@ LEAF_ALPHA = ["a", ",", " ", "\t", "#", "\xa0"]
 def gen_leaves(rng, n, tier):
     """regex leaves, live tokenizers, re-parse recogniser, spec oracle"""
     out = []
-    maxlen = 5 if tier == "thorough" else 3
+    maxlen = 4 if tier == "thorough" else 3      # 2*(6^0+..+6^4) = 3110 / 2*259 = 518 leaf cases
     for L in range(0, maxlen + 1):
         for tup in itertools.product(LEAF_ALPHA, repeat=L):
             s = "".join(tup)
             out.append({"t": "leafws", "line": s})
             out.append({"t": "leafcomma", "line": s})
-    k = max(40, n // 8)
+    k = max(40, n // 16)
     for _ in range(k):
         comma = rng.random() < 0.5
         v = gen_value(rng, comma, True)
